@@ -298,7 +298,7 @@ Section PlanOf.
   Qed.
 
   Lemma section_plan_ready enc st t s hpos : ready s ->
-    section_plan junk enc st t s hpos =
+    section_plan junk false enc st t s hpos =
       Ok (st, s, (hpos, shdr_bytes enc s) ::
                  (if negb (csize s =? 0) then match s_data s with Some b => [(sh_offset s, firstnN b (sh_size s))] | None => [] end else [])).
   Proof.
@@ -307,7 +307,7 @@ Section PlanOf.
     { destruct (s_index s =? 0); [reflexivity|now apply with_offset_same]. }
     rewrite E1, csize_nonzero_b.
     destruct (negb (sh_type s =? SHT_NOBITS) && negb (sh_type s =? SHT_NULL) && negb (sh_size s =? 0)) eqn:Ec; cbn [andb]; [|reflexivity].
-    destruct (s_data s) as [b|] eqn:Ed; [|reflexivity].
+    destruct (s_data s) as [b|] eqn:Ed; [|reflexivity]. unfold is_compressed. cbn [andb].
     assert (Hc : csize s <> 0).
     { intro Hz. pose proof (csize_nonzero_b s) as Hb. rewrite Ec, Hz in Hb. discriminate. }
     destruct (Hr Hc b eq_refl) as [Hl Hb].
@@ -317,7 +317,7 @@ Section PlanOf.
 
   Theorem sections_plan_noseg enc h st : forall todo done acc,
     e_shoff h < 2 ^ 63 -> Forall ready todo ->
-    sections_plan junk enc h [] st done todo acc =
+    sections_plan junk false enc h [] st done todo acc =
       Ok (st, rev_append done [] ++ todo, acc ++ flat_map (sec_writes enc (e_shoff h) (e_shentsize h)) todo).
   Proof.
     induction todo as [|s t IH]; intros done acc H63 Hr; cbn [sections_plan flat_map].
